@@ -224,7 +224,9 @@ class Gen:
                            ("namespace", self.cfg["w_namespace"])])
         x, y = self.slot(w), self.slot(w)
         if kind == "binop":
-            return {"k": "binop", "f": r.choice(["add", "sub", "mul", "div", "eq", "lt", "mul", "div", "max"]),
+            return {"k": "binop", "f": r.choice(["add", "sub", "mul", "div", "eq", "lt", "mul", "div", "max", "add", "sub", "mul", "div",
+                                                 "concat", "stack", "where", "dot", "isclose", "ge", "ne", "mod", "floordiv",
+                                                 "hypot", "minimum", "cross"]),
                     "x": x, "y": y, "store": self.store()}
         if kind == "usys_get":
             names = [d["name"] for d in w.usys_defs] + ["cgs", "mks", "imperial", "galactic", "solar"]
